@@ -211,7 +211,14 @@ CLAIMED = {
         "is proved correctly rounded (RoundSpec.v): round-half-even of x*2^t to 53 bits or the denormal grid with the decoded "
         "bit pattern, one rounding for a decimal of at most 800 significant digits, the sticky-bit quotient for negative "
         "exponents rounds like the exact quotient. Tied to /repo by token- and setting-level correspondence on ~2000 boundary spellings per run and a "
-        "model-free exact-value oracle (Python integers / correctly rounded float()).",
+        "model-free exact-value oracle (Python integers / correctly rounded float())."
+        " The float clause for EVERY float lexeme (FloatLexeme.v): float_lexeme is the scanner's float pattern as an explicit "
+        "decomposition (sign, integer digits, optional point and fraction, optional exponent); C08_strtod_of_float_lexeme "
+        "carries it through the whole parsing layer of the strtod model; C08_float_lexeme_token: within the window of the "
+        "correct-rounding theorems (<= 800 significant digits, digits + exponent <= 400, last digit >= 10^-400, value zero or "
+        ">= 2^-1078) the token is REJECTED exactly on a true overflow (value >= DBL_MAX + half an ulp) and otherwise stored "
+        "as the finite double with the lexeme's sign that is the round-half-even image of the denoted decimal on the 53-bit / "
+        "denormal grid, no double being nearer; digit-free lexemes (\".\", \"-.e5\") are +0.0.",
    note="PARTIAL for the float clause: that glibc strtod is correctly rounded is a libc contract in the trusted base, "
         "validated differentially on every run, not proved. The link lexeme -> rule is C18.",
    technique="Coq proof (unfolding the saturating/erroring digit folds against positional value, arithmetic by lia) + correspondence",
